@@ -2319,7 +2319,8 @@ def fast_nonMarkov_SIR(G, trans_time_fxn=None,
     if initial_recovereds is not None:
         for node in initial_recovereds:
             status[node] = 'R'
-            rec_time[node] = tmin-1 #default value for these.  Ensures that the recovered nodes appear with a time
+            rec_time[node] = tmin #so that the recovered nodes appear as 'R' from tmin on
+    initial_recovered_count = len(status) #at this point status only holds the initial recovereds
     pred_inf_time = defaultdict(lambda: float('Inf')) 
         #infection time defaults to \infty  --- this could be set to tmax, 
         #probably with a slight improvement to performance.
@@ -2336,7 +2337,7 @@ def fast_nonMarkov_SIR(G, trans_time_fxn=None,
         initial_infecteds=[initial_infecteds]
     #else it is assumed to be a list of nodes.
         
-    times, S, I, R= ([tmin], [G.order()], [0], [0])  
+    times, S, I, R= ([tmin], [G.order()-initial_recovered_count], [0], [initial_recovered_count])  
     transmissions = []
     
     for u in initial_infecteds:
